@@ -1,5 +1,89 @@
-(* TEMPORARY stub while N1 is being confirmed on the implementation. *)
-From FC Require Import P2P.Model.
-Theorem stub_trace_nonempty : forall r m ops, trace r m ops <> [].
-Proof. intros r m ops. unfold trace. discriminate. Qed.
-Print Assumptions stub_trace_nonempty.
+(* Property theorems of the P2P cluster (C31). Nothing but statements, [exact], and
+   Print Assumptions.  [reachable reserved max s]: s is the PeerManager state after
+   PeerManager::new(reserved, max) and ANY sequence of connect / identify / disconnect /
+   app-score / decay / gossip-score events (Proofs31.v).  Scores are exact dyadic numbers with
+   IEEE round-to-nearest-even to 53 bits (finite values in the normal range). *)
+From FC Require Import P2P.Model P2P.ProofsDy P2P.Proofs31 P2P.ProofsChk.
+Open Scope N_scope.
+
+(* the number of connected non-reserved peers never exceeds the limit *)
+Theorem slots_bounded : forall reserved max s,
+  max <= usizemax -> reachable reserved max s ->
+  len (non_reserved_connected_peers s) <= max.
+Proof. exact slots_bounded_all. Qed.
+Print Assumptions slots_bounded.
+
+(* a reserved peer is never asked to disconnect, is in the reserved table afterwards, and the
+   connection tracker admits it whatever the flag says *)
+Theorem reserved_always_admitted : forall reserved max s p,
+  reachable reserved max s -> mem p reserved = true ->
+  snd (handle_initial_connection s p) = false /\
+  contains_key (reserved_connected_peers (fst (handle_initial_connection s p))) p = true /\
+  allow_peer s p = true.
+Proof. exact reserved_always_admitted_all. Qed.
+Print Assumptions reserved_always_admitted.
+
+(* no event (app score, gossip score, or any other) makes the manager ban a reserved peer *)
+Theorem reserved_never_banned_by_score : forall reserved max s o,
+  max <= usizemax -> reachable reserved max s ->
+  Forall (fun b => mem b reserved = false) (bans_of (step s o)).
+Proof. exact reserved_never_banned_all. Qed.
+Print Assumptions reserved_never_banned_by_score.
+
+(* no peer's score exceeds MAX_APP_SCORE (clamping by f64::min, and the decay cannot lift it) *)
+Theorem score_le_max : forall reserved max s,
+  max <= usizemax -> reachable reserved max s ->
+  Forall (fun x => dy_leb (p_score x) MAX_APP_SCORE = true)
+         (non_reserved_connected_peers s ++ reserved_connected_peers s).
+Proof. exact score_le_max_all. Qed.
+Print Assumptions score_le_max.
+
+(* the flag read by ConnectionTracker::allow_peer: peers_allowed <=> fewer than max non-reserved
+   peers connected.  PARTIAL: proved for every limit >= 1; refuted for the limit 0 (below). *)
+Theorem flag_iff_free_slot_partial : forall reserved max s,
+  1 <= max -> max <= usizemax -> reachable reserved max s ->
+  (peers_allowed s = true <-> len (non_reserved_connected_peers s) < max) /\
+  (forall p, mem p reserved = false ->
+             (allow_peer s p = true <-> len (non_reserved_connected_peers s) < max)).
+Proof. exact flag_iff_free_slot_pos. Qed.
+Print Assumptions flag_iff_free_slot_partial.
+
+Theorem flag_iff_free_slot_refuted :
+  exists reserved s, reachable reserved 0 s /\
+    ~ (peers_allowed s = true <-> len (non_reserved_connected_peers s) < 0).
+Proof. exact flag_zero_refuted_all. Qed.
+Print Assumptions flag_iff_free_slot_refuted.
+
+(* with the limit 0 the flag stays "allowed" for ever (and the manager refuses every peer) *)
+Theorem flag_limit_zero_always_allowed : forall reserved s,
+  reachable reserved 0 s ->
+  peers_allowed s = true /\ ~ len (non_reserved_connected_peers s) < 0.
+Proof. exact flag_iff_free_slot_zero. Qed.
+Print Assumptions flag_limit_zero_always_allowed.
+
+(* the manager admits a new non-reserved peer exactly when a slot is free (every limit) *)
+Theorem new_peer_admitted_iff_free_slot : forall reserved max s p,
+  reachable reserved max s -> mem p reserved = false ->
+  contains_key (non_reserved_connected_peers s) p = false ->
+  (snd (handle_initial_connection s p) = false <-> len (non_reserved_connected_peers s) < max).
+Proof. exact new_peer_admitted_iff_free_slot_all. Qed.
+Print Assumptions new_peer_admitted_iff_free_slot.
+
+(* the observable trace of every history passes the checker: everything but the flag for every
+   limit, the flag too for every limit >= 1 *)
+Theorem peer_trace_ok : forall cf reserved max ops,
+  max <= usizemax -> (cf = true -> 1 <= max) ->
+  trace_okb cf reserved max ops (trace reserved max ops) = true.
+Proof. exact model_trace_ok. Qed.
+Print Assumptions peer_trace_ok.
+
+Theorem peer_trace_flag_refuted :
+  exists reserved ops, trace_okb true reserved 0 ops (trace reserved 0 ops) = false.
+Proof. exact model_trace_zero_refuted. Qed.
+Print Assumptions peer_trace_flag_refuted.
+
+(* meaning of the checker that is evaluated on the implementation's observations *)
+Theorem trace_checker_sound : forall cf reserved max ops obs,
+  trace_okb cf reserved max ops obs = true <-> TraceSpec cf reserved max ops obs.
+Proof. exact trace_okb_iff. Qed.
+Print Assumptions trace_checker_sound.
